@@ -88,6 +88,20 @@ CLAIMS = {
         technique="must-fact dataflow (call-result facts killed by any write to the buffers involved) for the gates; bit-level "
                   "provenance for writer/reader header agreement",
         design="5 C01"),
+    "C09": dict(
+        text="Clause-level structural decision of writer/reader agreement for downstream answers: for every downstream codec "
+             "option the prefix letter and codec chosen by the server's TXT and hostname writers are the documented ones and the "
+             "client's decoder maps that letter, in both cases, to the same codec and format (computed by reachability under a "
+             "fixed discriminant, not by text); the seven record types fall into the same four format classes in write_dns, "
+             "dns_encode and dns_decode and are routed accordingly by read_dns_withq; MX/SRV preference numbering (step, base, "
+             "slot index, a guaranteed empty sentinel slot for the unbounded read loop) and the SRV extra fields agree; hostname "
+             "prefix/suffix lengths written and stripped agree; TXT strings are length-prefixed with the bytes copied and "
+             "bounded on both sides; the hostname reserve arithmetic keeps every name within 253 characters and the dot interval "
+             "matches inline_dotify; the MX/SRV name table is cleared in full before every use. Found and now guards the repair "
+             "of the Base64u/Base64 decoder mix-up. Not decided: per-length exactness and monotonicity inside one format.",
+        technique="table agreement: reachability under fixed discriminants over clang CFGs, evaluated constants, must-fact "
+                  "dominance for guards, symbolic path walk of the name suffix writer",
+        design="5 C09"),
 }
 
 NA = {
